@@ -104,6 +104,21 @@ def replay(w):
         sym = all(D[i][j] == D[j][i] for i in range(len(D)) for j in range(len(D)))
         bad = back.name != "rt" or back.n_cities != len(D) or bool(back.is_symmetric) != sym or info["matrix"] != [list(r) for r in D]
         return bad, info
+    if kind == "coords":
+        ewt, n, q, pts = w["ewt"], w["n"], w["q"], w["points"]
+        from fractions import Fraction
+        if ewt != "GEO":
+            lines = [f"{i + 1} {coord_text(p[0], q)} {coord_text(p[1], q)}" for i, p in enumerate(pts)] + ["EOF"]
+        if ewt == "GEO":
+            lines = [f"{i + 1} {geo_text(p[0], q)} {geo_text(p[1], q)}" for i, p in enumerate(pts)] + ["EOF"]
+            exp = [[0 if i == j else geo_float(pts[i], pts[j], q) for j in range(n)] for i in range(n)]
+        else:
+            exp = [[0 if i == j else exact_dist(ewt, [Fraction(c, q) for c in pts[i]], [Fraction(c, q) for c in pts[j]]) for j in range(n)] for i in range(n)]
+        try:
+            got = real_coord_matrix(ewt, lines, n)
+        except (ValueError, TypeError, IndexError) as e:
+            return True, dict(raised=f"{type(e).__name__}: {e}"[:150], expected=exp)
+        return got != exp, dict(loaded=got, expected=exp, lines=lines)
     if kind == "tour":
         import io
         from moptipyapps.tsp.known_optima import _from_stream as tour_from
@@ -283,6 +298,413 @@ def job_tour(length, maxnode):
     return held(summary=f"tour parser: sequences of {length} nodes in 1..{maxnode}: {eng.paths} paths {eng.outcomes}", sample=dict(length=length, outcomes=eng.outcomes), **common)
 
 
+# --------------------------------------------------------------------------- coordinate-based edge weights
+COORD_TYPES = ["EUC_2D", "CEIL_2D", "ATT"]
+
+
+def coord_funcs():
+    import moptipyapps.tsp.instance as ti
+    from symx import sqrtalg
+    ov = core.install_builtins(dict(check_int_range=P.s_check_int_range, check_to_int_range=c09.s_check_to_int_range, isfinite=lambda v: True,
+                                    sqrt=sqrtalg.s_sqrt))
+    memo = {}
+    also = ("__matrix_from_points", "__line_to_nums", "__dist_2deuc", "__dist_att", "__dist_2dceil", "__nint", "_matrix_from_node_coord_section")
+    f = xform.transform(ti._matrix_from_node_coord_section, ov, memo, also=also)
+    return f, ti
+
+
+def coord_spec(ewt, xn, xd, d):
+    """TSPLIB95 distance d (an integer term) as a function of the root argument x = xn/xd, by squares only: EUC_2D (x = squared
+    Euclidean distance) nearest integer, half up; CEIL_2D (same x) smallest integer >= sqrt(x); ATT (x = squared distance / 10):
+    nint, plus one if that is below the root - i.e. again the smallest integer >= sqrt(x)"""
+    if ewt == "EUC_2D":     # d - 1/2 <= sqrt(x) < d + 1/2
+        return z3.And(d >= 0, z3.Or(d == 0, (2 * d - 1) * (2 * d - 1) * xd <= 4 * xn), 4 * xn < (2 * d + 1) * (2 * d + 1) * xd)
+    return z3.And(d >= 0, z3.Or(z3.And(d == 0, xn == 0), z3.And(d >= 1, (d - 1) * (d - 1) * xd < xn, xn <= d * d * xd)))
+
+
+def exact_dist(ewt, a, b):
+    """the same definitions on concrete fractions (integer arithmetic only)"""
+    from fractions import Fraction
+    from math import isqrt
+    s = (Fraction(a[0]) - Fraction(b[0])) ** 2 + (Fraction(a[1]) - Fraction(b[1])) ** 2
+    if ewt == "ATT":
+        s = s / 10
+    if ewt == "EUC_2D":     # floor(sqrt(s) + 1/2) = floor(sqrt(4 s) / 2 + 1/2) = (isqrt-based) largest d with (2d-1)^2 <= 4s
+        d = isqrt((4 * s).numerator // (4 * s).denominator) // 2 + 2
+        while d > 0 and not ((2 * d - 1) ** 2 <= 4 * s):
+            d -= 1
+        return d
+    d = isqrt(s.numerator // s.denominator)
+    while Fraction(d * d) < s:
+        d += 1
+    return d
+
+
+def coord_text(k, q):
+    """exact decimal text of k/q for q in (1, 2, 4)"""
+    if q == 1:
+        return str(k)
+    sign = "-" if k < 0 else ""
+    k = abs(k)
+    digits = {2: 1, 4: 2}[q]
+    frac = (k % q) * (10 ** digits) // q
+    return f"{sign}{k // q}.{frac:0{digits}d}"
+
+
+def geo_text(k, q):
+    if q == 1:
+        return str(k)
+    digits = len(str(q)) - 1
+    sign = "-" if k < 0 else ""
+    k = abs(k)
+    return f"{sign}{k // q}.{k % q:0{digits}d}"
+
+
+def geo_float(a, b, q):
+    """TSPLIB95 GEO distance in floating point (truncating degree conversion)"""
+    import math
+
+    def rad(k):
+        x = float(geo_text(k, q))
+        deg = int(x)
+        return 3.141592 * (deg + 5.0 * (x - deg) / 3.0) / 180.0
+    lat_i, lon_i, lat_j, lon_j = rad(a[0]), rad(a[1]), rad(b[0]), rad(b[1])
+    q1, q2, q3 = math.cos(lon_i - lon_j), math.cos(lat_i - lat_j), math.cos(lat_i + lat_j)
+    return int(6378.388 * math.acos(0.5 * ((1.0 + q1) * q2 - (1.0 - q1) * q3)) + 1.0)
+
+
+def real_coord_matrix(ewt, lines, n):
+    import moptipyapps.tsp.instance as ti
+    return [[int(v) for v in r] for r in ti._matrix_from_node_coord_section(n, ewt, None, iter(lines))]
+
+
+def job_coords(ewt, n, q, bound, timeout_s=600):
+    """`_matrix_from_node_coord_section` on n points with symbolic coordinates k/q (q = 1: integer text; q = 2, 4: decimal
+    text), |k| <= bound: every cell equals the TSPLIB95 distance of its two points, the matrix is symmetric with a zero diagonal.
+    Per cell the proof is split: (A) the polynomial the code takes the root of IS the squared distance of the two points of that
+    cell (identity over the coordinates), (B) for EVERY non-negative argument the code's root/rounding logic yields the TSPLIB95
+    value (argument = one fresh integer)."""
+    f, ti = coord_funcs()
+    from symx import sqrtalg
+    tmax = 4 * bound + 4             # cap on every truncated root (a distance is at most 3*bound+1); checked below not to cut anything off
+    sqrtalg.TRUNC_MAX[0] = tmax
+    state = {}
+
+    def h(eng):
+        del sqrtalg.ARGS[:]
+        ks = [[fresh_int(f"k{i}_{c}") for c in range(2)] for i in range(n)]
+        eng.assume(z3.And(*[z3.And(v.e >= -bound, v.e <= bound) for r in ks for v in r]))
+        lines = []
+        for i in range(n):
+            if q == 1:
+                toks = [AtomStr(v) for v in ks[i]]
+            else:
+                toks = [AtomStr(core.SymReal(z3.ToReal(v.e) / q), suffix=".") for v in ks[i]]
+            lines.append(f"{i + 1} " + " ".join(toks) + "\n")
+        lines.append("EOF\n")
+        try:
+            m = f(n, ewt, None, iter(lines))
+        except (ValueError, TypeError) as e:
+            eng.oblige(False, "coordinate section is accepted: " + str(e)[:80], now=True)
+            return "raised"
+        state["box"] = util.Box(ks=ks, m=m, args=list(sqrtalg.ARGS))
+        return "loaded"
+    eng = Engine(timeout_ms=60000, max_paths=64)
+    per = []
+
+    def wrapped(e):
+        r = h(e)
+        if r == "loaded":
+            per.append((list(e.s.assertions()), list(e.deferred), state["box"]))
+        return r
+    eng.explore(wrapped)
+    common = dict(paths=eng.paths, vacuity=dict(outcomes=dict(eng.outcomes)))
+    if eng.violations:
+        v = eng.violations[0]
+        md = {d.name(): v.model[d] for d in v.model.decls()}
+        pts = [[int(str(md.get(f"k{i}_{c}", 0))) for c in range(2)] for i in range(n)]
+        return _coord_verdict(ewt, n, q, pts, v.label, common)
+    if not per or eng.work or not eng.exhausted or any(k not in ("infeasible",) for k in eng.aborts):
+        return inconclusive(f"exploration incomplete {eng.stats()}", **common)
+    results = []
+
+    def done(extra=None):
+        qs, st = util.qstats(results)
+        common.update(queries=qs, solver_s=st)
+        if extra:
+            common.update(extra)
+
+    def names(e):
+        return {x.decl().name() for x in _int_consts(e)}
+    for asr, deferred, box in per:
+        kcons = [a for a in asr if all(nm.startswith("k") for nm in names(a))]        # the coordinate ranges (+ decisions on coordinates only)
+        argmap = {A.decl().name(): (A, xn, xd) for A, xn, xd in box.args}
+        for i in range(n):
+            for j in range(i + 1):
+                cells = [lift(box.m[i, j]), lift(box.m[j, i])]
+                if i == j:
+                    r = backend.solve(kcons, cells[0] != 0, timeout_s=120, label="diagonal")
+                    results.append(r)
+                    if r.status != "unsat":
+                        done()
+                        if r.status == "unknown":
+                            return inconclusive("diagonal: solver unknown", **common)
+                        pts = [[int(r.model.get(f"k{a}_{c}", 0)) for c in range(2)] for a in range(n)]
+                        return _coord_verdict(ewt, n, q, pts, "diagonal cell not zero", common)
+                    continue
+                dx = box.ks[i][0].e - box.ks[j][0].e
+                dy = box.ks[i][1].e - box.ks[j][1].e
+                sn, sd = dx * dx + dy * dy, q * q * (10 if ewt == "ATT" else 1)      # the intended root argument sn/sd
+                tvars = set().union(*[names(c) for c in cells])
+                roots = {nm for nm in tvars if nm.startswith("isqrt")}
+                if any(not nm.startswith(("isqrt", "sqarg")) for nm in tvars):
+                    return inconclusive(f"cell ({i},{j}) depends on {sorted(tvars)[:4]}: not of the form the decomposition handles", **common)
+                rel = [c for c in deferred + asr if names(c) & roots]
+                avars = sorted({nm for c in rel for nm in names(c) if nm.startswith("sqarg")} | {nm for nm in tvars if nm.startswith("sqarg")})
+                if len(avars) != 1 or any(not (nm.startswith("isqrt") or nm.startswith("sqarg")) for c in rel for nm in names(c)):
+                    return inconclusive(f"cell ({i},{j}): root constraints over {avars} do not have the expected shape", **common)
+                A, xn, xd = argmap[avars[0]]
+                # (A) the argument of the root is the squared distance of points i and j:  xn / xd == sn / sd
+                ra = backend.solve(kcons, xn * sd != sn * xd, timeout_s=timeout_s, label=f"identity {i},{j}")
+                results.append(ra)
+                if ra.status != "unsat":
+                    done()
+                    if ra.status == "unknown":
+                        return inconclusive(f"identity ({i},{j}): solver unknown {ra.detail}", **common)
+                    pts = [[int(ra.model.get(f"k{a}_{c}", 0)) for c in range(2)] for a in range(n)]
+                    return _coord_verdict(ewt, n, q, pts, f"the root is not taken of the squared distance of points {i + 1},{j + 1}", common)
+                # (B) for every argument A/xd the code's value is the TSPLIB95 one
+                amax = 8 * bound * bound * xd
+                d = z3.Int("spec_d")
+                rvars = [z3.Int(nm) for nm in sorted({nm for c in rel for nm in names(c) if nm.startswith("isqrt")})]
+                cons = rel + [A >= 0, A <= amax, coord_spec(ewt, A, xd, d), d <= tmax] + [z3.And(x >= 0, x <= tmax) for x in rvars]
+                goal = z3.Not(z3.And(*[c == d for c in cells]))
+                blocked = []
+                while True:
+                    rb = backend.solve(cons + blocked, goal, timeout_s=timeout_s, label=f"root logic {i},{j}")
+                    results.append(rb)
+                    if rb.status == "unsat":
+                        break
+                    done()
+                    if rb.status == "unknown":
+                        return inconclusive(f"root logic ({i},{j}): solver unknown {rb.detail}", **common)
+                    av = int(rb.model.get(avars[0], 0))
+                    pts = _points_for(av, xd, sd, bound, n, i, j)
+                    if pts is not None:
+                        return _coord_verdict(ewt, n, q, pts, f"rounding logic wrong for squared distance {av}/{xd}", common)
+                    blocked.append(A != av)          # not a sum of two squares of admissible coordinate differences
+                    if len(blocked) > 200:
+                        return inconclusive("root logic: 200 counterexample arguments, none realisable by coordinates", **common)
+                tw = backend.solve(cons, z3.BoolVal(True), timeout_s=120, label="twin")
+                wide = [z3.substitute(c, *[(x <= tmax, x <= 2 * tmax) for x in rvars]) for c in cons]
+                cap = backend.solve(wide, z3.Or(*[x > tmax for x in rvars]) if rvars else z3.BoolVal(False), timeout_s=300, label="cap")
+                results += [tw, cap]
+                if tw.status != "sat" or cap.status != "unsat":
+                    done()
+                    return inconclusive(f"vacuity twin {tw.status} / cap on truncated roots implied: {cap.status}", **common)
+    done(dict(backend=repr(results[-3]) if len(results) >= 3 else ""))
+    return held(summary=f"{ewt} n={n} coordinates k/{q}, |k|<={bound}: every cell is the TSPLIB95 distance of its points ({len(results)} queries)",
+                sample=dict(query="per cell: (A) root argument == squared distance of the cell's points; (B) exists argument for which the value differs from the TSPLIB95 definition",
+                            ewt=ewt, n=n, q=q, bound=bound, answer="unsat"), **common)
+
+
+def _points_for(av, xd, sd, bound, n, i, j):
+    """coordinate numerators of n points such that the intended root argument (dx^2 + dy^2) / sd of points i and j equals av/xd, or None"""
+    from math import isqrt
+    num = av * sd
+    if num % xd:
+        return None
+    t = num // xd
+    for dx in range(0, min(isqrt(t), 2 * bound) + 1):
+        r2 = t - dx * dx
+        dy = isqrt(r2)
+        if dy * dy == r2 and dy <= 2 * bound:
+            pts = [[(3 * a) % (bound + 1), (5 * a) % (bound + 1)] for a in range(n)]
+            pts[i] = [-(dx // 2), -(dy // 2)]
+            pts[j] = [dx - dx // 2, dy - dy // 2]
+            return pts
+    return None
+
+
+# GEO: cos / acos are uninterpreted (shared by code and specification); what is decided is that the code evaluates the TSPLIB95
+# expression on the right coordinates with the truncating degree conversion
+_COS = z3.Function("cos", z3.RealSort(), z3.RealSort())
+_ACOS = z3.Function("acos", z3.RealSort(), z3.RealSort())
+
+
+def _s_cos(v):
+    if not core.is_sym(v):
+        import math
+        return math.cos(v)
+    r = core.SymReal(_COS(core.s_float(v).e))
+    core.ENG.assume_fast(z3.And(r.e >= -1, r.e <= 1))
+    return r
+
+
+def _s_acos(v):
+    if not core.is_sym(v):
+        import math
+        return math.acos(v)
+    r = core.SymReal(_ACOS(core.s_float(v).e))
+    core.ENG.assume_fast(z3.And(r.e >= 0, r.e <= z3.RealVal("3.1416")))
+    return r
+
+
+def geo_spec(pi, pj, q, d, extra):
+    """TSPLIB95 GEO distance of two points given as coordinate numerators over q (truncating degree conversion, as in the
+    reference implementations); appends the defining constraints of the truncations to `extra`, returns the constraint on d"""
+    def rad(k, tag):
+        x = z3.ToReal(k) / q
+        deg = z3.Int(f"deg_{tag}")
+        extra.append(z3.If(x >= 0, z3.And(z3.ToReal(deg) <= x, x < z3.ToReal(deg) + 1), z3.And(z3.ToReal(deg) >= x, x > z3.ToReal(deg) - 1)))
+        mn = x - z3.ToReal(deg)
+        return lift(3.141592) * (z3.ToReal(deg) + 5 * mn / 3) / 180          # the double nearest to 3.141592, as in any floating-point implementation
+    lat_i, lon_i = rad(pi[0], f"{id(pi)}a"), rad(pi[1], f"{id(pi)}b")
+    lat_j, lon_j = rad(pj[0], f"{id(pj)}a"), rad(pj[1], f"{id(pj)}b")
+    q1, q2, q3 = _COS(lon_i - lon_j), _COS(lat_i - lat_j), _COS(lat_i + lat_j)
+    v = lift(6378.388) * _ACOS(z3.RealVal("1/2") * ((1 + q1) * q2 - (1 - q1) * q3)) + 1
+    return z3.And(z3.ToReal(d) <= v, v < z3.ToReal(d) + 1)
+
+
+def job_geo(n, q, bound, timeout_s=300):
+    """GEO coordinate section on n symbolic points k/q (|k| <= bound, i.e. degrees.minutes within +-bound/q)"""
+    import moptipyapps.tsp.instance as ti
+    ov = core.install_builtins(dict(check_int_range=P.s_check_int_range, check_to_int_range=c09.s_check_to_int_range, isfinite=lambda v: True,
+                                    cos=_s_cos, acos=_s_acos))
+    also = ("__matrix_from_points", "__line_to_nums", "__dist_loglat", "__coord_to_rad", "_matrix_from_node_coord_section")
+    f = xform.transform(ti._matrix_from_node_coord_section, ov, {}, also=also)
+    state = {}
+
+    def h(eng):
+        ks = [[fresh_int(f"k{i}_{c}") for c in range(2)] for i in range(n)]
+        eng.assume(z3.And(*[z3.And(v.e >= -bound, v.e <= bound) for r in ks for v in r]))
+        lines = []
+        for i in range(n):
+            toks = [AtomStr(v) if q == 1 else AtomStr(core.SymReal(z3.ToReal(v.e) / q), suffix=".") for v in ks[i]]
+            lines.append(f"{i + 1} " + " ".join(toks) + "\n")
+        lines.append("EOF\n")
+        try:
+            m = f(n, "GEO", None, iter(lines))
+        except (ValueError, TypeError) as e:
+            eng.oblige(False, "coordinate section is accepted: " + str(e)[:80], now=True)
+            return "raised"
+        state["box"] = util.Box(ks=ks, m=m)
+        return "loaded"
+    eng = Engine(timeout_ms=60000, max_paths=64)
+    per = []
+
+    def wrapped(e):
+        r = h(e)
+        if r == "loaded":
+            per.append((list(e.s.assertions()), state["box"]))
+        return r
+    eng.explore(wrapped)
+    common = dict(paths=eng.paths, vacuity=dict(outcomes=dict(eng.outcomes)))
+    def concrete_search(hint, why):
+        """cos/acos are uninterpreted, so a model is only a hint: look for a concrete point set on which the real loader differs from
+        the TSPLIB95 expression evaluated in floating point"""
+        cands = [hint] if hint else []
+        rnd = random.Random(12345)
+        for _ in range(400):
+            cands.append([[rnd.randint(-bound, bound) for _c in range(2)] for _r in range(n)])
+        for pts in cands:
+            w = dict(kind="coords", ewt="GEO", n=n, q=q, points=pts, label=why)
+            bad, info = replay(w)
+            if bad:
+                w["observed"] = info
+                return violated("coordinate_distances", "tsp/instance.py:_matrix_from_node_coord_section/GEO", f"GEO points={pts} (over {q}) -> {info}", w, validated=1, **common)
+        return inconclusive(f"{why}; no concrete point set among {len(cands)} shows a difference", **common)
+    if eng.violations or not per or eng.work or not eng.exhausted or any(k not in ("infeasible",) for k in eng.aborts):
+        hint = None
+        if eng.violations:
+            md = {d.name(): eng.violations[0].model[d] for d in eng.violations[0].model.decls()}
+            hint = [[int(str(md.get(f"k{i}_{c}", 0))) for c in range(2)] for i in range(n)]
+        return concrete_search(hint, f"exploration incomplete or obligation failed under the uninterpreted cos/acos: {[v.label for v in eng.violations][:2]} {eng.aborts}")
+    results = []
+    for asr, box in per:
+        for i in range(n):
+            for j in range(i + 1):
+                cells = [lift(box.m[i, j]), lift(box.m[j, i])]
+                extra = []
+                if i == j:
+                    goal = cells[0] != 0
+                else:
+                    d = z3.Int("spec_d")
+                    extra.append(geo_spec([k.e for k in box.ks[i]], [k.e for k in box.ks[j]], q, d, extra))
+                    goal = z3.Not(z3.And(*[c == d for c in cells]))
+                # lemmas first (linear, decided in milliseconds): which of the code's truncations equals which degree of the
+                # specification; the proven equalities let the main query close by congruence of cos/acos
+                lem = []
+                tr = [x for a in asr for x in _int_consts(a) if x.decl().name().startswith("trunc")]
+                tr = list({x.get_id(): x for x in tr}.values())
+                dg = [x for a in extra for x in _int_consts(a) if x.decl().name().startswith("deg_")]
+                dg = list({x.get_id(): x for x in dg}.values())
+                lin = [a for a in asr + extra if not _mentions_uf(a)]
+                for x in dg:
+                    for y in tr:
+                        sl = z3.Solver()
+                        sl.set("timeout", 10000)
+                        sl.add(*lin, x != y)
+                        if str(sl.check()) == "unsat":
+                            lem.append(x == y)
+                s_ = z3.Solver()
+                s_.set("timeout", timeout_s * 1000)
+                s_.add(*asr, *extra, *lem, goal)
+                t0 = time.time()
+                st = str(s_.check())
+                results.append(backend.Result(st, {}, "z3-default", time.time() - t0, 0) if hasattr(backend, "Result") else None)
+                if st != "unsat":
+                    qs, tt = util.qstats([r for r in results if r])
+                    common.update(queries=qs, solver_s=tt)
+                    hint = None
+                    if st == "sat":
+                        m_ = s_.model()
+                        hint = [[int(str(m_.eval(k.e, model_completion=True))) for k in row] for row in box.ks]
+                    return concrete_search(hint, f"GEO cell ({i},{j}) differs from the TSPLIB95 expression under uninterpreted cos/acos ({st})")
+    qs, tt = util.qstats([r for r in results if r])
+    common.update(queries=qs, solver_s=tt)
+    return held(summary=f"GEO n={n} coordinates k/{q}, |k|<={bound}: every cell is the TSPLIB95 expression of its two points (cos/acos uninterpreted)",
+                sample=dict(query="exists points (and functions cos, acos) for which a cell differs from int(6378.388*acos(0.5*((1+q1)*q2-(1-q1)*q3))+1)", n=n, q=q, answer="unsat"), **common)
+
+
+def _mentions_uf(e):
+    stack, seen = [e], set()
+    while stack:
+        t = stack.pop()
+        if t.get_id() in seen:
+            continue
+        seen.add(t.get_id())
+        if z3.is_app(t) and t.decl().kind() == z3.Z3_OP_UNINTERPRETED and t.num_args() > 0:
+            return True
+        stack.extend(t.children())
+    return False
+
+
+def _int_consts(e, seen=None):
+    seen = set() if seen is None else seen
+    out = []
+    stack = [e]
+    while stack:
+        t = stack.pop()
+        if t.get_id() in seen:
+            continue
+        seen.add(t.get_id())
+        if z3.is_const(t) and t.decl().kind() == z3.Z3_OP_UNINTERPRETED and z3.is_int(t):
+            out.append(t)
+        stack.extend(t.children())
+    return out
+
+
+def _coord_verdict(ewt, n, q, pts, label, common):
+    w = dict(kind="coords", ewt=ewt, n=n, q=q, points=pts, label=label)
+    bad, info = replay(w)
+    w["observed"] = info
+    if bad:
+        return violated("coordinate_distances", f"tsp/instance.py:_matrix_from_node_coord_section/{ewt}", f"{ewt} points={[[coord_text(k, q) for k in p] for p in pts]} -> {info}", w, validated=1, **common)
+    return inconclusive(f"model does not replay: {w}", **common)
+
+
+
 def job_selftest(seed):
     """concrete cross-check through the real loaders: formats, wrappings, round trips, tours"""
     rnd = random.Random(seed)
@@ -324,6 +746,28 @@ def job_selftest(seed):
         if bad:
             w["observed"] = info
             return violated("tour_parser", "tsp/known_optima.py:_from_stream", f"{w}", w, validated=cnt, paths=cnt)
+    for _ in range(60):
+        n = rnd.randint(2, 5)
+        ewt = rnd.choice(COORD_TYPES)
+        q = rnd.choice((1, 1, 2, 4))
+        hi = rnd.choice((3, 30, 3000, 10 ** 6))
+        pts = [[rnd.randint(-hi, hi) for _c in range(2)] for _i in range(n)]
+        w = dict(kind="coords", ewt=ewt, n=n, q=q, points=pts)
+        bad, info = replay(w)
+        cnt += 1
+        if bad:
+            w["observed"] = info
+            return violated("coordinate_distances", f"tsp/instance.py:_matrix_from_node_coord_section/{ewt}", f"{w}", w, validated=cnt, paths=cnt)
+    for _ in range(30):     # GEO: floating-point reference; a last-digit difference (|diff| = 1) is not counted here
+        n = rnd.randint(2, 4)
+        q = rnd.choice((1, 100))
+        pts = [[rnd.randint(-90 * q, 90 * q), rnd.randint(-180 * q, 180 * q)] for _i in range(n)]
+        w = dict(kind="coords", ewt="GEO", n=n, q=q, points=pts)
+        bad, info = replay(w)
+        cnt += 1
+        if bad and ("raised" in info or any(abs(a - b) > 1 for ra, rb in zip(info["loaded"], info["expected"]) for a, b in zip(ra, rb))):
+            w["observed"] = info
+            return violated("coordinate_distances", "tsp/instance.py:_matrix_from_node_coord_section/GEO", f"{w}", w, validated=cnt, paths=cnt)
     return held(validated=cnt, paths=cnt, queries={}, summary=f"self-test: {cnt} concrete files through the real loaders / writer / tour parser agree with the format definitions")
 
 
@@ -337,6 +781,11 @@ def jobs(tier):
     for n in (2, 3) + ((4,) if tier == "thorough" else ()):
         for sym in (None, True):
             js.append(Job(f"roundtrip/n{n}/{'sym' if sym else 'any'}", job_roundtrip, dict(n=n, symmetric=sym), "stream_roundtrip", 900))
+    for ewt in COORD_TYPES:
+        for n, q, bound in ((2, 1, 10 ** 6), (3, 1, 1000), (2, 4, 4000)) + (((3, 4, 10 ** 4), (4, 1, 1000), (2, 2, 10 ** 5), (3, 1, 10 ** 6), (5, 1, 100)) if tier == "thorough" else ()):
+            js.append(Job(f"coords/{ewt}/n{n}/q{q}/b{bound}", job_coords, dict(ewt=ewt, n=n, q=q, bound=bound), "coordinate_distances", 900))
+    for n, q, bound in ((2, 1, 180), (2, 100, 18000)) + (((3, 1, 180), (3, 100, 18000)) if tier == "thorough" else ()):
+        js.append(Job(f"coords/GEO/n{n}/q{q}", job_geo, dict(n=n, q=q, bound=bound), "coordinate_distances", 900))
     js.append(Job("tour/len3", job_tour, dict(length=3, maxnode=4), "tour_parser", 600))
     js.append(Job("tour/len4", job_tour, dict(length=4, maxnode=5), "tour_parser", 900))
     return js
@@ -346,8 +795,16 @@ def meta(tier):
     return dict(
         bounds=dict(formats="the four explicit formats, n <= 4 (thorough 5), numbers symbolic 0..10^12, every wrapping of the number stream into lines (budget 1200 paths quick / 20000 thorough; exhaustive where the evidence says so)",
                     roundtrip="Instance (real constructor, symbolic matrix n <= 3 (thorough 4), symmetric and asymmetric) -> to_stream -> _from_stream",
-                    tour="node sequences of length 3-4 with node numbers 1..5, every wrapping"),
-        outside=["EUC_2D / CEIL_2D / ATT / GEO coordinate distances (float sqrt/cos/acos)", "'every shipped tour has the documented optimum length' (a fact about shipped data, not about all inputs)",
+                    tour="node sequences of length 3-4 with node numbers 1..5, every wrapping",
+                    coordinates="NODE_COORD_SECTION with EUC_2D, CEIL_2D, ATT on 2-3 (thorough up to 5) points with symbolic coordinates k/q: integer text (q=1, |k| <= 10^6 for "
+                                "two points, <= 1000 for three) and decimal text (q=4 quick, q=2 and 4 thorough): per cell (A) the polynomial under the root is the squared distance of "
+                                "that cell's two points (/10 for ATT), (B) for every non-negative argument the rounding logic gives the TSPLIB95 value (nearest, half up / ceiling); "
+                                "sqrt is modelled exactly by squares (real semantics). GEO on 2 (thorough 3) points, integer and DDD.MM text: cell == the TSPLIB95 expression with cos/acos "
+                                "uninterpreted (truncating degree conversion, double constants 3.141592 and 6378.388)"),
+        outside=["IEEE rounding inside sqrt / cos / acos and of the decimal text (the square-root model is exact real arithmetic: for integer and quarter-valued coordinates up to 10^6 the "
+                 "squared distance is exact in doubles and no root lies within 1e-7 of a rounding boundary, so both semantics agree - argued, not solver-checked)",
+                 "the numerical values of cos/acos (GEO is checked up to these two functions)", "'every shipped tour has the documented optimum length' (a fact about shipped data, not about all inputs)",
                  "digit-level number formatting/parsing (numbers travel as opaque atoms: Python's str(int)/int(str) are assumed inverse)"],
         assumptions=["numbers are opaque atom tokens", "instances accepted by the real tsp constructor"],
-        stubs=["check_to_int_range/check_int_range re-implemented", "Instance(...) inside _from_stream -> the symbolic run of the real constructor", "np.array/zeros/fill_diagonal/reshape shims"])
+        stubs=["math.sqrt -> exact algebraic model c + sqrt(x) (symx/sqrtalg.py): +constant, int(), comparisons via squares", "math.cos / math.acos -> uninterpreted functions with range axioms",
+               "check_to_int_range/check_int_range re-implemented", "Instance(...) inside _from_stream -> the symbolic run of the real constructor", "np.array/zeros/fill_diagonal/reshape shims"])
